@@ -107,6 +107,16 @@ def queries(tier):
         add(T, ['pkg:%s/n?b=1&d=2&f=3&h=4&j=5&l=6&' % ty, ('hole', 'h', 2), '=v'])
         add(T, ['pkg:%s/n?' % ty, ('hole', 'h', 1), '=v&b=1&d=2&F=3&h=4&J=5&l=6&n=7'])
         add(T, ['pkg:%s/n#a/b/./c/../d/' % ty, ('hole', 'h', 3), '/e//f'])
+    # several free keys: the order in which keys arrive differs between the input and its canonical string
+    for T in ('String', 'Purl'):
+        ty = 't' if T == 'String' else 'npm'
+        add(T, ['pkg:%s/n?' % ty, ('hole', 'a', 2), '=1&', ('hole', 'b', 2), '=2'])
+        add(T, ['pkg:%s/n?' % ty, ('hole', 'a', 1), '=1&', ('hole', 'b', 1), '=2&', ('hole', 'c', 1), '=3'])
+        if thorough or T == 'String':
+            add(T, ['pkg:%s/n?' % ty, ('hole', 'a', 1), '=1&', ('hole', 'b', 1), '=2&', ('hole', 'c', 1), '=3&', ('hole', 'd', 1), '=4'])
+        if thorough:
+            add(T, ['pkg:%s/n?' % ty, ('hole', 'a', 1), '=1&', ('hole', 'b', 1), '=2&', ('hole', 'c', 1), '=3&', ('hole', 'd', 1), '=4&', ('hole', 'e', 1), '=5'])
+            add(T, ['pkg:%s/n?' % ty, ('hole', 'a', 2), '=1&', ('hole', 'b', 2), '=2&', ('hole', 'c', 2), '=3'])
     # typed PURL: the seven types, holes in namespace / name / whole tail
     for ty in ('cargo', 'gem', 'golang', 'maven', 'npm', 'nuget', 'pypi'):
         for n in _lens(4 if thorough else 3, 1):
